@@ -1199,6 +1199,30 @@ class Tr:
             if bp or tp != "bool":
                 raise Unsupported("closure body with checks")
             return b0, "(%s (fun %s => %s) %s)" % ("existsb" if m == "any" else "forallb", x, ap, paren(a0)), "bool"
+        if m == "unwrap_or" and len(args) == 1 and recv[0] == "mcall" and recv[2] == "rposition" and len(recv[3]) == 1 \
+                and recv[3][0][0] == "closure" and len(recv[3][0][1]) == 1 and recv[1][0] == "mcall" \
+                and recv[1][2] == "iter" and not recv[1][3]:
+            # xs.iter().rposition(|&x| p).unwrap_or(d)
+            b0, a0, t0 = self.ex(f, recv[1][1], env)
+            if not (isinstance(t0, tuple) and t0[0] in ("slice", "arr")):
+                raise Unsupported(".iter() on a non-slice")
+            x = recv[3][0][1][0]
+            env2 = dict(env)
+            env2[x] = (x, "u64")
+            bp, ap, tp = self.ex(f, recv[3][0][2], env2, "bool")
+            if bp or tp != "bool":
+                raise Unsupported("closure body with checks")
+            bd, ad, td = self.ex(f, args[0], env, "usize")
+            return b0 + bd, "(match iter_rposition (fun %s => %s) %s with Some n_ => n_ | None => %s end)" % (
+                x, ap, paren(a0), paren(ad)), "usize"
+        if m == "unwrap_or" and len(args) == 1 and recv[0] == "mcall" and recv[2] == "copied" and not recv[3] \
+                and recv[1][0] == "mcall" and recv[1][2] == "first" and not recv[1][3]:
+            # xs.first().copied().unwrap_or(d)
+            b0, a0, t0 = self.ex(f, recv[1][1], env)
+            if not (isinstance(t0, tuple) and t0[0] in ("slice", "arr")):
+                raise Unsupported(".first() on a non-slice")
+            bd, ad, td = self.ex(f, args[0], env, "u64")
+            return b0 + bd, "(hd %s %s)" % (paren(ad), paren(a0)), "u64"
         if m == "map_or" and len(args) == 2 and args[1][0] == "closure" and len(args[1][1]) == 1 \
                 and recv[0] == "mcall" and recv[2] == "position" and len(recv[3]) == 1 and recv[3][0][0] == "closure" \
                 and len(recv[3][0][1]) == 1 and recv[1][0] == "mcall" and recv[1][2] == "iter" and not recv[1][3]:
@@ -2258,6 +2282,7 @@ TARGETS = [
     ("src/modular.rs", UINT_IMPL, "mul_redc", "U.mul_redc", "g_u_mul_redc", "uint"),
     ("src/modular.rs", UINT_IMPL, "square_redc", "U.square_redc", "g_u_square_redc", "uint"),
     ("src/bits.rs", UINT_IMPL, "reverse_bits", "U.reverse_bits", "g_reverse_bits", "uint"),
+    ("src/bits.rs", UINT_IMPL, "most_significant_bits", "U.most_significant_bits", "g_most_significant_bits", "uint"),
     ("src/pow.rs", UINT_IMPL, "overflowing_pow", "U.overflowing_pow", "g_overflowing_pow", "uint"),
     ("src/pow.rs", UINT_IMPL, "checked_pow", "U.checked_pow", "g_checked_pow", "uint"),
     ("src/pow.rs", UINT_IMPL, "saturating_pow", "U.saturating_pow", "g_saturating_pow", "uint"),
